@@ -133,7 +133,7 @@ func GenFaults(rt *rapid.T, t Tree, o FaultOpts) []Fault {
 				f.N = 1
 			}
 		case "tolink":
-			f.Dest = rapid.SampledFrom([]string{"nowhere", "../x", "f0", "a", "."}).Draw(rt, "faultdest")
+			f.Dest = rapid.SampledFrom([]string{"nowhere", "../x", "f0", "a", ".", "..", "../c", "c", "b", "../a"}).Draw(rt, "faultdest")
 		case "retarget":
 			f.Dest = rapid.SampledFrom([]string{"nowhere", "../x", "f0", "a", ".", "=./", "=/", "=x/../", "=//"}).Draw(rt, "faultdest")
 			// "=..." variants: a different string that a path cleaner would map to the signed destination
